@@ -15,8 +15,10 @@ sessions that switch conditional cycle edges on and off; canonical replays of co
 
 A second harness bin (`cycle`) covers fresh evaluation systematically: every digraph on 3 keys, random
 digraphs on 4-6 keys and random conditional programs, each run once per PERMUTATION of its roots on a fresh
-engine; its oracle checks the from-scratch semantics and that all permutations agree key by key (the part of
-"all choices of the queried roots" that is not proved); every line is tied to both Lean models, strictly.
+engine; its oracle checks the from-scratch semantics and that all permutations agree key by key ("all choices
+of the queried roots": proved for the model as `cycle_order_independent`, Props/C06.lean — any two root lists,
+every key both evaluate, value and mark; here it is checked on the implementation); every line is tied to both
+Lean models, strictly.
 
 Env: VERIF_ENGINE_BIN / VERIF_CYCLE_BIN = prebuilt harness binaries (used to evaluate patches and mutations on a
 private copy of the repo without touching /repo).
@@ -42,11 +44,6 @@ TOGGLE_SETS = [
 ]
 
 PARTIAL = [
-    "cycle_order_independent_partial: independence of the order/choice of roots is proved for every key below "
-    "which the static read graph has no cycle (value = plain from-scratch evalSpec, whatever else was requested). "
-    "The full statement (C06_order_independent_full_statement: also for members of cycles and readers of members) "
-    "is not proved; it is left to the harness oracle (root order of each case) and to harness/src/bin/cycprobe.rs "
-    "(200 000 random cyclic programs, 0 order-dependent).",
     "cycle_incremental (values after edits that create/remove cycles equal the from-scratch values) is FALSE for the "
     "code as it is: findings F3, F30, F31, F32 (canonical replays in corpus/engine-cyclic, witnesses checked "
     "against the real engine on every run); F2 and F16 were fixed in /repo (531aeb1, 3fbfd09) and their replays now "
@@ -54,9 +51,11 @@ PARTIAL = [
     "generated programs without firewalls/projections, and with them only up to the residual recorded as "
     "F32/F30/F1/F14.",
     "concurrent requests (two tasks entering one SCC from two sides) are outside these sequential models (C02's LTS); "
-    "this includes the engine's own spawned repair tasks when a query has >= 2 transitive firewall callees or backward "
-    "projections (cases marked order-sensitive): there a hang of the implementation that no order of the model shows is "
-    "attributed to finding F33 by exclusion, not by a model prediction.",
+    "this includes the interleaving of the engine's own spawned repair tasks when a query has >= 2 transitive firewall "
+    "callees or backward projections (cases marked order-sensitive). Finding F33 (a hang of check_cyclic_internal in "
+    "exactly that situation) was fixed in /repo (4685b5a: visited set); its replay "
+    "corpus/engine-cyclic/F33-hang-in-spawned-task.txt is a regression case that must run clean on every shard: a "
+    "hang there, or any hang of the implementation that no order of the model shows, is a VIOLATION.",
 ]
 ASSUMPTIONS = [
     "fingerprints are injective on the values of a run (value = fingerprint in the models; C13)",
@@ -65,7 +64,9 @@ ASSUMPTIONS = [
 ]
 TRUSTED_EXTRA = [
     "modelled, not verified: tokio runtime/JoinSet (spawned chunks run one after the other to completion), "
-    "scc::HashMap (check_cyclic_internal re-entering it is modelled as a hang), the in-memory storage engine",
+    "scc::HashMap (check_cyclic_internal's walk over callee_queries is modelled with its visited set, 4685b5a; in the "
+    "fresh-evaluation model of the theorems the walk is the older one without the set and is PROVED never to exhaust "
+    "its fuel), the in-memory storage engine",
     "theorems are about Model/Cycle.lean (fresh evaluation); Model/Engine.lean (incremental) is tied by "
     "correspondence only",
 ]
@@ -166,14 +167,6 @@ def analyse(sh):
             if who is None and (same_asis or same_desc):
                 src = raw if same_asis else models["desc"]
                 who = "model:" + classify(src[i] if impl[i].startswith("crash") else "value")
-            if who is None and impl[i] == "crash hang" and osens and not reproduced:
-                # F33: the engine's own spawned repair tasks (>= 2 transitive firewall callees / backward
-                # projections: the model marks these cases order-sensitive) interleave at every `.guarded()`
-                # block; a task that asks for a query another task is still publishing (marked, with itself
-                # or an ancestor among its registered callees) recurses forever in check_cyclic_internal.
-                # The sequential model cannot express the interleaving: attribution BY EXCLUSION (a hang
-                # of the implementation, in a case with spawned tasks, that no order of the model shows).
-                who = "concurrent:hang-in-spawned-task"
             if who is None: res["unexplained"].append(rec)
             else: res["attributed"].setdefault(who, []).append(rec)
             cl = classify(raw[i]) if impl[i].startswith("crash") else "value"
